@@ -48,6 +48,7 @@ func startC20(t *testing.T) *c20env {
 	rec.Witness(F4, func() (bool, string) { return witnessPanic(F4) })
 	rec.Witness(F16, func() (bool, string) { return witnessPanic(F16) })
 	registerMoreC20Witnesses(rec)
+	rec.Witness(F96, witnessF96)
 	return &c20env{rec: rec, cnt: map[string]int{}}
 }
 
